@@ -1254,3 +1254,26 @@ Proof. intros H. exact (hop_fixed_output_formula w addr tw aw tin ain resid w' l
 
 Lemma reach_pairs_inv w x pe : Reachable w -> pair_at (w_pairs w) x = Some pe -> PairInv (pe_p pe).
 Proof. intros H. exact (wi_pinv w (reachable_inv w H) x pe). Qed.
+
+(** upgradePair addresses its pair through the registry, so it can only ever reach a registered one *)
+Lemma upgrade_pair_guard w c a b w' o : WInv w ->
+  ep_upgrade_pair w c a b = Ok (w', o) ->
+  c = r_owner (w_r w) /\ r_active (w_r w) = true /\ w' = w /\
+  exists p, get_pair (r_map (w_r w)) a b = Some p /\ Registered w p.
+Proof.
+  intros Hinv H. unfold ep_upgrade_pair in H. cbv zeta in H.
+  destruct (is_owner w c) eqn:Eo; [|discriminate]. destruct (r_active (w_r w)); [|discriminate].
+  destruct (negb (a =? b)); [|discriminate].
+  destruct (tok_valid a); [|discriminate]. destruct (tok_valid b); [|discriminate].
+  destruct (get_pair (r_map (w_r w)) a b) as [p|] eqn:G; [|discriminate].
+  inversion H; subst. unfold is_owner in Eo. beq.
+  split; [exact Eo|]. split; [reflexivity|]. split; [reflexivity|]. exists p. split; [reflexivity|].
+  apply (registered_iff_listed _ _ Hinv). apply get_pair_some in G.
+  destruct G as [G|G]; apply (in_map snd) in G; exact G.
+Qed.
+
+Lemma reach_upgrade_pair w c a b w' o : Reachable w ->
+  ep_upgrade_pair w c a b = Ok (w', o) ->
+  c = r_owner (w_r w) /\ r_active (w_r w) = true /\ w' = w /\
+  exists p, get_pair (r_map (w_r w)) a b = Some p /\ Registered w p.
+Proof. intros H. exact (upgrade_pair_guard w c a b w' o (reachable_inv w H)). Qed.
